@@ -70,6 +70,42 @@ def documented_rules(repo):
         out[cls] = names
     return out, ""
 
+INT_BITS = {"int": 64, "int8": 8, "int16": 16, "int32": 32, "int64": 64, "uint": 64, "uint8": 8, "uint16": 16, "uint32": 32, "uint64": 64}
+SMALL_CMP = ["gt=3", "gte=3", "lt=5", "lte=5"]      # implemented by applyParameterizedRule; meaning by name
+
+def extra_singles(tok, cls):
+    """large / type-boundary parameters for the numeric rules, per integer width (single-rule cells only)"""
+    if cls == "float": return list(SMALL_CMP)
+    if cls not in ("sint", "uint"): return []
+    b = INT_BITS[tok]; big = 2 ** 53 + 1
+    if cls == "sint":
+        hi, lo = 2 ** (b - 1) - 1, -2 ** (b - 1)
+        if b == 64:
+            ps = ["min=%d" % big, "max=%d" % big, "min=%d" % hi, "max=%d" % hi, "min=%d" % lo, "max=%d" % lo]
+            ps += ["gt=%d" % big, "gte=%d" % big, "lt=%d" % big, "lte=%d" % big]
+        else:
+            ps = ["min=%d" % hi, "max=%d" % hi, "min=%d" % lo, "max=%d" % lo]
+    else:
+        hi = 2 ** b - 1
+        if b == 64:
+            ps = []
+            for B in (big, 2 ** 63 - 1, hi): ps += ["min=%d" % B, "max=%d" % B]
+            ps += ["gt=%d" % big, "gte=%d" % big, "lt=%d" % big, "lte=%d" % big]
+        else:
+            ps = ["min=%d" % hi, "max=%d" % hi]
+    return ps + SMALL_CMP
+
+def extra_probes(tok, cls):
+    if cls not in ("sint", "uint"): return []
+    b = INT_BITS[tok]; big = 2 ** 53 + 1
+    if cls == "sint":
+        hi, lo = 2 ** (b - 1) - 1, -2 ** (b - 1)
+        vs = ([big - 1, big, big + 1] if b == 64 else []) + [hi - 1, hi, lo, lo + 1]
+    else:
+        hi = 2 ** b - 1
+        vs = ([big - 1, big, big + 1, 2 ** 63 - 2, 2 ** 63 - 1, 2 ** 63] if b == 64 else []) + [hi - 1, hi]
+    return ["i:%d" % v for v in vs]
+
 def instances_for(cls, doc):
     if cls == "str":
         names = doc["str"]
@@ -119,9 +155,9 @@ def build_matrix(repo):
             if inst is None: return None, err
             pairs = [(inst[i], inst[j]) for i in range(len(inst)) for j in range(i + 1, len(inst))]
             pairs += EXTRA_PAIRS.get(cls, [])
-            inst = inst + EXTRA_SINGLES.get(cls, [])
+            inst = inst + EXTRA_SINGLES.get(cls, []) + extra_singles(tok, cls)
             blocks.append(dict(fty=("ptr_" if ptr else "") + tok, gotype=("*" if ptr else "") + gotype, cls=cls, ptr=ptr,
-                               probes=probes_for(cls, ptr), singles=inst, pairs=pairs))
+                               probes=probes_for(cls, ptr) + extra_probes(tok, cls), singles=inst, pairs=pairs))
     return blocks, ""
 
 def go_matrix(blocks):
@@ -161,7 +197,7 @@ def write_if_changed(path, content):
 
 def lean_rule(tok):
     name, _, par = tok.partition("=")
-    if name in ("min", "max"): return ".%s %s" % (name, par if int(par) >= 0 else "(%s)" % par)
+    if name in ("min", "max", "gt", "gte", "lt", "lte"): return ".%s %s" % (name, par if int(par) >= 0 else "(%s)" % par)
     if name == "length": return ".length %s" % par
     if name == "regex": return ".regex"
     return "." + name
@@ -170,6 +206,7 @@ def lean_probe(tok):
     p = tok.split(":")
     if p[0] == "nil": return ".nil"
     if p[0] == "n": return ".num %s" % (p[1] if int(p[1]) >= 0 else "(%s)" % p[1])
+    if p[0] == "i": return ".num %s" % (str(2 * int(p[1])) if int(p[1]) >= 0 else "(%d)" % (2 * int(p[1])))
     if p[0] == "s": return ".str .%s %s" % (p[1], p[2])
     if p[0] == "e": return ".elems %s" % p[1]
     if p[0] == "b": return ".flag %s" % ("true" if p[1] == "1" else "false")
@@ -234,7 +271,7 @@ def table_from(ops, impl, blocks):
     return lean_table(blocks, obs)
 
 FORMAT_FIRST = ["email", "url", "uuid", "regex", "required", "min", "max", "length", "positive", "negative",
-                "nonnegative", "nonpositive", "nonempty"]
+                "nonnegative", "nonpositive", "nonempty", "gt", "gte", "lt", "lte"]
 
 def make_key(ops, impl, model):
     """Failure-class key.  A failing probe of a two-rule cell is attributed to a single-rule cell
@@ -252,6 +289,9 @@ def make_key(ops, impl, model):
         if t[1] == "cell":
             fty, rules, probe = t[2], t[3].split("+"), t[4]
             names = [r.split("=")[0] for r in rules]
+            # gt/gte/lt/lte work on int/int64 fields for small bounds and are rounded above 2^53: own class
+            names = [n + "@above2^53" if (n in ("gt", "gte", "lt", "lte") and fty in ("int", "int64") and abs(int(r.split("=")[1])) > 2 ** 53) else n
+                     for n, r in zip(names, rules)]
             if not (im in ("0", "1")):
                 return "cell-%s:rule=%s,fty=%s" % (re.split(r"[:_]", im)[0], "+".join(names), fty)
             if len(rules) == 1:
@@ -263,7 +303,7 @@ def make_key(ops, impl, model):
                     for r, n, x in zip(rules, names, singles):
                         if x != spec.get((fty, r, probe)):
                             return "cell:rule=%s,fty=%s" % (n, fty)
-            a, b = sorted(names, key=lambda n: FORMAT_FIRST.index(n) if n in FORMAT_FIRST else 99)
+            a, b = sorted(names, key=lambda n: FORMAT_FIRST.index(n.split("@")[0]) if n.split("@")[0] in FORMAT_FIRST else 99)
             return "pair:rules=%s+%s,fty=%s" % (a, b, fty)
         if t[1] == "tag":
             if im.startswith("panic"): return "tagparser:panic"
